@@ -106,7 +106,8 @@ class C17(Campaign):
                    "listener classes with value-based __eq__/__hash__ (a copy equals its original)",
                    "snapshot-after-failed-op", "snapshot after a failed (deferred) initial activation", "diverging suffixes, interleaved",
                    "allow_event_without_transition reassigned on a live machine (before / after the snapshot)",
-                   "a listener object shared by identity between the original and its copy"]
+                   "a listener object shared by identity between the original and its copy",
+                   "guard provided by an instance attribute the machine subclass sets before calling the constructor"]
     rule = ("one run = a generated machine (all option combinations rtc x allow x state_field x start_value, "
             "custom attribute, model and listener callbacks, sync/async) driven through a prefix, copied with "
             "deepcopy or pickle at a seeded point, then original and clone driven through different, interleaved "
@@ -167,6 +168,15 @@ class C17(Campaign):
             for _ in range(rnd.randint(1, 4)):
                 out.append({"op": "send", "inst": rnd.choice(["C", "C", "B"]), "event": rnd.choice(prog["events"]),
                             "kwargs": {"x": rnd.randrange(7000, 7999)} if rnd.random() < 0.4 else {}})
+        if rnd.random() < 0.2:
+            # a guard that is a plain instance attribute of the machine, set by the subclass's __init__
+            # before the library's constructor: part of the machine's own state, copied with it
+            t = rnd.choice(prog["trans"])
+            val = rnd.random() < 0.7
+            prog["cbs"]["machine.g_attr"] = {"group": "cond", "sig": [], "inst_attr": True, "value": val}
+            t.setdefault("cond", []).append("g_attr")
+            nbits = (1 << len(prog["states"])) - 1
+            sc["gv"][f"{prog['name']}/machine.g_attr"] = [nbits if val else 0] * (len(out) + 8)
         enters = sorted(c for c, m_ in prog["cbs"].items() if m_["group"] == "enter")
         if is_async and enters and rnd.random() < 0.3:
             # the deferred activation of the original FAILS inside an enter callback (the initial state is
